@@ -242,14 +242,14 @@ fn pub_message(w: Option<&World>, path: &str, kind: &str) -> Result<publication:
             d.add_update(Update::new(None, uri(own, "new.cer"), content("new object"), content("replaced").to_hash()));
             publication::Message::delta(d)
         }
-        "update_other" | "withdraw_other" | "update_own" => {
+        "update_other" | "withdraw_other" | "update_own" | "withdraw_own" => {
             // needs the current hash of the object x.cer the owner published
-            let who = if kind == "update_own" { own } else { other };
+            let who = if kind == "update_own" || kind == "withdraw_own" { own } else { other };
             let target = uri(who, "new.cer");
             let hash = content("new object").to_hash();
             let _ = w;
             let mut d = PublishDelta::empty();
-            if kind == "withdraw_other" {
+            if kind == "withdraw_other" || kind == "withdraw_own" {
                 d.add_withdraw(Withdraw::new(None, target, hash));
             } else {
                 d.add_update(Update::new(None, target, content("replaced"), hash));
